@@ -1,7 +1,11 @@
 """C16 — failures carry a documented status and a message that tells the story."""
+import os, re
 import kdf, dumpgen
 
-THEOREMS = ["Kdf.Props.C16." + t for t in ("init_inv", "clear_inv", "vadd_chain", "vadd_fits_no_alloc", "vadd_trunc", "vadd_inbounds", "history_inv", "history_chain", "codes_documented", "status_roundtrip", "addrxlat2kdump_documented", "probe_never_noprobe")]
+THEOREMS = ["Kdf.Props.C16." + t for t in ("init_inv", "clear_inv", "vadd_chain", "vadd_fits_no_alloc", "vadd_trunc", "vadd_inbounds", "history_inv", "history_chain", "codes_documented", "status_roundtrip", "addrxlat2kdump_documented", "probe_never_noprobe",
+    "directReadOk_tolerates", "directReadOk_empty", "pgtroot_story", "pgtroot_disciplined", "mapLinuxPgtroot_disciplined",
+    "mapLinuxArm_disciplined", "mapLinuxArm_story", "xenver_disciplined", "xenver_tolerates", "derived_disciplined",
+    "derived_names_cause")]
 BUFSZ = [64, 80, 160]          # ERRBUF of addrxlat ctx, bitmap objects, kdump ctx
 
 
@@ -115,12 +119,12 @@ OS_GENS = ["gen_x86_64_linux", "gen_x86_64_xen", "gen_ia32_linux", "gen_riscv64_
 OS_FAIL = ["nodata", "notpresent", "nomem", "invalid", "notimpl", "custom4", "custom7"]     # custom<n>: a tunnelled kdump_status
 
 
-def os_images(R):
+def os_images(R, rng):
     """(name, image) list: random images of every generator plus the images whose root page table is a kernel virtual
     address that the read callback claims to serve (the `direct_read_ok` class of arm, aarch64, riscv64)."""
     import random
     from props import c08img as G
-    rng, quick = R.rng, R.tier == "quick"
+    quick = R.tier == "quick"
     out = []
     def mk(g, force=None):
         return getattr(G, g)(random.Random(rng.getrandbits(48)), force=dict(force) if force else None)
@@ -135,12 +139,50 @@ def os_images(R):
         out.append(("arm-kvroot(opt=%s,stext=%d,phys_base=%d,rcaps=%d)" % (ro, st, pb, rc), img))
     for g, num in (("gen_aarch64_linux", "kimage_voffset"), ("gen_riscv64_linux", "va_kernel_pa_offset")):
         for drop in (False, True):
-            img = mk(g, dict(rootsrc="sym"))
+            # (the number of virtual address bits comes as an option: the model twin starts at map_linux_*)
+            img = mk(g, dict(rootsrc="sym", vb=(0, 0, 1) if "aarch64" in g else (False, True)))
             img.rcaps |= 4
             if drop:
                 img.syms = [x for x in img.syms if x[1] != num]
             out.append(("%s-kvroot(%s=%d)" % (g[4:-6], num, not drop), img))
     return out
+
+
+def os_model(name, img, inject):
+    """the line that describes this set-up to the model (lean/Kdf/Model/ErrFlow.lean mapLinuxArm / mapLinuxPgtroot through
+    driver stream `flow`), or None when the image's set-up is not one of the modelled ones"""
+    hx = lambda t: t.encode().hex()
+    hide = [i.split()[1:] for i in inject if i.startswith("hide ")]
+    bad = [(int(i.split()[1]), int(i.split()[2]), i.split()[3]) for i in inject if i.startswith("bad ")]
+    def sym(kind, nm):
+        for k, n, st in hide:
+            if (k, n) == (kind, nm):
+                return "%s %s" % (st, hx("refused " + nm))
+        vals = [v for k, n, v in img.syms if (k, n) == (kind, nm)]
+        return ("ok -", vals[-1]) if vals else "nodata %s" % hx("no %s %s" % (kind, nm))
+    def val(x):
+        return x[1] if isinstance(x, tuple) else None
+    def txt(x):
+        return x[0] if isinstance(x, tuple) else x
+    def rd(as_, addr):
+        for a, b, st in bad:
+            if a == as_ and b == addr & ~0xfff:
+                return "%s %s" % (st, hx("page not available"))
+        return "ok -"
+    sw = sym("sym", "swapper_pg_dir")
+    rootopt = "rootpgt" in img.opts
+    if rootopt:
+        ras, raddr = (int(x) for x in img.opts["rootpgt"].split(":"))
+    else:
+        ras, raddr = 2, val(sw)
+    caps = 0 if raddr is None else (img.rcaps >> ras) & 1
+    rdp = "ok -" if raddr is None else rd(ras, raddr)
+    if img.arch == "arm":
+        return "arm %d %s %s %d %s %d" % (rootopt, txt(sw), txt(sym("sym", "_stext")), caps, rdp, "phys_base" in img.opts)
+    if "kvroot" in name and img.arch in ("aarch64", "riscv64"):
+        num = "kimage_voffset" if img.arch == "aarch64" else "va_kernel_pa_offset"
+        return "pgtroot %s %d %s %d %s %s" % (num, rootopt, txt(sw), caps, rdp, txt(sym("num", num)))
+    return None
 
 
 def os_verdict(st, msg, ev, custom_injected):
@@ -167,12 +209,12 @@ def os_verdict(st, msg, ev, custom_injected):
     return None
 
 
-def os_family(R):
+def os_family(R, rng):
     """returns (violation or None, statistics)"""
     lib, cflags = R.build_lib()
     exe = R.build_harness("s_os", ["s_os.c"], lib=lib, cflags=cflags)
-    rng, quick = R.rng, R.tier == "quick"
-    imgs = os_images(R)
+    quick = R.tier == "quick"
+    imgs = os_images(R, rng)
     # pass 1: the unharmed set-up of every image, with the list of pages it reads
     base = ["c16 1"]
     for name, img in imgs:
@@ -188,7 +230,7 @@ def os_family(R):
             pages.append(cur); cur = []; elines.append(l)
     if rc != 0 or len(elines) != len(imgs):
         return (("OS set-up harness stopped (rc=%s) after %d of %d images: %s" % (rc, len(elines), len(imgs), err.strip()[-600:]),
-                 dict(stream="os", input="\n".join(base[-40:]))), {})
+                 dict(stream="os", input="\n".join(base[-40:]))), {}, [], [])
     script, desc = ["c16 2"], []
     for (name, img), pg in zip(imgs, pages):
         L = img.setup_lines()
@@ -197,10 +239,10 @@ def os_family(R):
         qs = [r[1] for r in img.regions[:2]] + [0x10]
         def one(inject, what, custom=False):
             script.extend(["newsys", "unbad", "hide - - ok"] + inject + [osinit])
-            desc.append((name, img, inject, what + " during addrxlat_sys_os_init", custom))
+            desc.append((name, img, inject, what + " during addrxlat_sys_os_init", custom, os_model(name, img, inject)))
             for q in qs:
                 script.append("conv 0 2 %d" % q)
-                desc.append((name, img, inject, what + "; conversion of KVADDR:%#x after the set-up" % q, custom))
+                desc.append((name, img, inject, what + "; conversion of KVADDR:%#x after the set-up" % q, custom, None))
         one([], "nothing fails")
         pts = list(pg)
         if quick and len(pts) > 6:
@@ -220,7 +262,8 @@ def os_family(R):
     E = [l for l in out.split("\n") if l.startswith("E ")]
     stats = dict(images=len(imgs), calls=len(E), failing=0, tolerated_failures=0)
     fail = None
-    for (name, img, inject, what, custom), l in zip(desc, E):
+    mlines, mwant = [], []
+    for (name, img, inject, what, custom, ml), l in zip(desc, E):
         head, msg = l.split(" | ", 1)
         t = head.split()
         st, ev = t[2], int(t[3][3:])
@@ -228,6 +271,9 @@ def os_family(R):
             stats["failing"] += 1
         elif inject and ev:
             stats["tolerated_failures"] += 1
+        if ml:
+            mlines.append(ml)
+            mwant.append(("image %s: %s" % (name, what), "%s | %s" % (st, re.sub(r"\[ev\d+\] ", "", msg))))
         v = os_verdict(st, msg, ev, custom)
         if v:
             stats.setdefault("verdicts", []).append("%s | %s | %s" % (name, what[:90], v[:200]))
@@ -241,7 +287,126 @@ def os_family(R):
         k = min(len(E), len(desc) - 1)
         fail = ("OS set-up harness stopped (rc=%s) at image %s, %s: %s" % (rc, desc[k][0], desc[k][3], err.strip()[-600:]),
                 dict(stream="os", image=desc[k][0], inject=desc[k][2]))
-    return fail, stats
+    stats["modelled"] = len(mlines)
+    return fail, stats, mlines, mwant
+
+
+# ---------------------------------------------------------------------------------------------------------
+# libkdumpfile-level message discipline (harness/s_flow.c, model lean/Kdf/Model/ErrFlow.lean, driver stream `flow`):
+# register / blob attributes of dumps with PRSTATUS and XEN_PRSTATUS notes after the blob was cleared or replaced,
+# Xen Dom0 dumps whose crash note points to memory the dump may or may not hold, the same with allocation failures.
+def xen_crash_info(extra, be=False):
+    import struct
+    return struct.pack((">" if be else "<") + "10Q", 4, 11, extra, 0, 0, 0, 0, 0, 0x7f800000, 0x1234)
+
+
+def flow_family(R, rng):
+    """returns (violation or None, lines, harness observations, model lines, statistics)"""
+    import struct
+    quick = R.tier == "quick"
+    lib, cflags = R.build_lib()
+    exe = R.build_harness("s_flow", ["s_flow.c"], lib=lib, cflags=cflags, ldflags=[kdf.ALLOC_WRAP])
+    vm = b"OSRELEASE=5.4.0-verif\nPAGESIZE=4096\n"
+    L = []                       # harness lines;  an `M ...` line describes the call that follows it to the model
+    # ---- PRSTATUS (ELF notes, two CPUs) and XEN_PRSTATUS (xc_core section)
+    notes = dumpgen.elf_note(b"CORE", 1, dumpgen.prstatus_x86_64(1)) + dumpgen.elf_note(b"CORE", 1, dumpgen.prstatus_x86_64(2)) + \
+        dumpgen.elf_note(b"VMCOREINFO", 0, vm)
+    p1 = R.path("c16-prstatus.elf"); dumpgen.write_elf(p1, [dict(pfn=1, npages=2, voff=0xffff880000000000)], notes=notes)
+    p2 = R.path("c16-xenprstatus.elf"); dumpgen.write_elf_sections(p2)
+    regs1 = ["rip", "rsp", "rax", "r15", "rbp", "cs", "fs_base"]
+    regs2 = ["cr3", "cr0", "cs", "dr0", "rip", "rsp"]
+    for path, blobkey, regs, other in ((p1, "PRSTATUS", regs1, "cpu.1.reg.rip"), (p2, "XEN_PRSTATUS", regs2, None)):
+        for rounds in range(1 if quick else 4):
+            L.append("open " + path)
+            state, size = "set", None
+            for _ in range(rng.randint(8, 14) if rounds else 1):
+                pass
+            seq = ["rd", "wr", "clear", "rd", "wr", "pid", "other", "short", "rd", "wr", "restore", "rd", "wr", "clear", "clear", "wr"]
+            if rounds:
+                seq = [rng.choice(["rd", "wr", "clear", "short", "restore", "pid", "other"]) for _ in range(rng.randint(10, 24))]
+            blob0 = dumpgen.prstatus_x86_64(1) if blobkey == "PRSTATUS" else bytes(bytearray(range(256)) * 21)[:5168]
+            for op in seq:
+                r = rng.choice(regs)
+                if op == "rd":
+                    L += ["M blobreg rd %s %s" % (state, blobkey), "get cpu.0.reg.%s" % r]
+                elif op == "wr":
+                    L += ["M blobreg wr %s %s" % (state, blobkey), "setnum cpu.0.reg.%s %d" % (r, rng.getrandbits(rng.choice([8, 32, 64])))]
+                elif op == "pid" and blobkey == "PRSTATUS":
+                    L += ["M blobreg rd %s %s" % (state, blobkey), "get cpu.0.pid"]
+                elif op == "other" and other:
+                    L += ["M blobreg rd set %s" % blobkey, "get " + other]          # the other CPU's blob is untouched
+                elif op == "clear":
+                    L.append("clear cpu.0.%s" % blobkey); state = "cleared"
+                elif op == "short":
+                    L.append("setblob cpu.0.%s %s" % (blobkey, blob0[:rng.choice([1, 8, 31])].hex())); state = "short"
+                elif op == "restore":
+                    L.append("setblob cpu.0.%s %s" % (blobkey, blob0.hex())); state = "set"
+    # ---- Xen Dom0: XEN_ELFNOTE_CRASH_INFO points to the extra version string
+    data = bytearray(b"x" * 8192)
+    data[0x20:0x2b] = b"-verif-xen\0"
+    data[0x1ff0:0x2000] = b"-ends-with-page\0"
+    cases = [("readable", 0x1020, None), ("absent page", 0x7fb7fbff, None), ("absent page", 0x5000 + rng.randrange(4096), None),
+             ("runs into an absent page", 0x1800 + rng.randrange(0x700), None), ("readable, ends with its page", 0x2ff0, None),
+             ("page lost to a truncated file", 0x2000 + rng.randrange(0xf00), 0x2000), ("no crash note", None, None)]
+    for ci, (what, extra, trunc) in enumerate(cases):
+        nn = (dumpgen.elf_note(b"Xen", 0x1000001, xen_crash_info(extra)) if extra is not None else b"") + dumpgen.elf_note(b"VMCOREINFO", 0, vm)
+        q = R.path("c16-dom0-%d.elf" % ci)
+        dumpgen.write_elf(q, [dict(paddr=0x1000, filesz=8192, memsz=8192, voff=0xffff880000000000, data=bytes(data))], notes=nn)
+        if trunc:
+            os.truncate(q, trunc)
+        for ostype in ("linux", "xen"):
+            L.append("open " + q)
+            if extra is not None:
+                L.append("rdstr 1 %d" % extra)
+                L.append("M xenver 1")            # the model is given the outcome of the part (the rdstr just before)
+            else:
+                L.append("M xenver 0")
+            L += ["setstr addrxlat.ostype " + ostype, "get xen.version.extra", "get addrxlat.ostype"]
+        # the same call with the n-th allocation failing (monitor only)
+        for n in range(1, 9 if quick else 16):
+            L += ["open " + q, "failat %d" % n, "setstr addrxlat.ostype " + rng.choice(["linux", "xen"])]
+    # ---- opening the dumps with notes with the n-th allocation failing (monitor only)
+    for path in (p1, p2):
+        for n in (rng.sample(range(1, 120), 12) if quick else range(1, 160)):
+            L += ["failat %d" % n, "open " + path, "get cpu.0.reg.rip"]
+    rc, out, err = R.run_harness(exe, stdin_text="\n".join(L) + "\n")
+    obs = kdf.obs(out)
+    calls = [l for l in L if not (l.startswith("M ") or l.startswith("failat "))]
+    fail = None
+    for i, o in enumerate(obs):
+        if " C16:" in o.split(" | ")[0] or "UNDOCUMENTED" in o.split(" | ")[0]:
+            j = [k for k, l in enumerate(L) if not (l.startswith("M ") or l.startswith("failat "))][i]
+            k0 = max(k for k in range(j + 1) if L[k].startswith("open "))
+            fail = ("public call '%s' answered '%s'" % (calls[i][:100], o[:200]), dict(stream="flow", input="\n".join(L[k0:j + 1])))
+            break
+    if fail is None and (rc != 0 or len(obs) != len(calls)):
+        k = min(len(obs), len(calls) - 1)
+        fail = ("flow harness stopped (rc=%s) at '%s': %s" % (rc, calls[k][:100], err.strip()[-600:]), dict(stream="flow", input="\n".join(calls[max(0, k - 20):k + 1])))
+    # ---- the model's side: the described calls, each with the observed outcome of its part where the model is compositional
+    mlines, want = [], []
+    ci = 0
+    prev = None
+    pending = None
+    for l in L:
+        if l.startswith("failat "):
+            continue
+        if l.startswith("M "):
+            pending = l[2:]
+            continue
+        o = obs[ci] if ci < len(obs) else None
+        ci += 1
+        if pending and o is not None:
+            if pending.startswith("xenver 1") and prev is not None:
+                head, msg = prev.split(" | ", 1)
+                mlines.append("xenver 1 %s %s" % (head.split()[1], msg.encode().hex() if msg != "-" else "-"))
+            elif pending.startswith("xenver"):
+                mlines.append("xenver 0 ok -")
+            else:
+                mlines.append(pending)
+            want.append((l, o))
+        pending = None
+        prev = o
+    return fail, L, want, mlines, dict(calls=len(calls), modelled=len(mlines))
 
 
 def run(R):
@@ -263,6 +428,11 @@ def run(R):
                 lines.append(("add %s %d" % (m.hex(), op[2])).replace("  ", " ")); meta.append((si, "add", m, op[2]))
     text = "\n".join(lines) + "\n"
     lib, cflags = R.build_lib()
+    # the two families above the buffer run beside the rest (own generators derived from R.rng, so the run stays replayable)
+    import concurrent.futures, random
+    pool = concurrent.futures.ThreadPoolExecutor(2)
+    fam_os = pool.submit(os_family, R, random.Random(R.rng.getrandbits(64)))
+    fam_fl = pool.submit(flow_family, R, random.Random(R.rng.getrandbits(64)))
     exe = R.build_harness("s_err", ["s_err.c"], lib=lib, cflags=cflags, ldflags=[kdf.ALLOC_WRAP])
     rc, out, err = R.run_harness(exe, stdin_text=text)
     impl = kdf.obs(out)
@@ -317,6 +487,27 @@ def run(R):
     api_lines, api_fail, api_n = api_scenarios(R)
     if api_fail and not fail:
         R.violation(api_fail[0], dict(stream="fmt", input=api_fail[1], broken_theorems=proof["broken"]))
+    # ---- the message discipline above the buffer: OS set-up of libaddrxlat, register / Xen attributes of libkdumpfile
+    os_fail, os_stats, os_m, os_want = fam_os.result()
+    fl_fail, fl_lines, fl_want, fl_m, fl_stats = fam_fl.result()
+    pool.shutdown()
+    os_stats.pop("verdicts", None)
+    for f in (os_fail, fl_fail):
+        if f and not fail and not api_fail:
+            rp = dict(f[1]); rp["broken_theorems"] = proof["broken"]
+            R.violation(f[0], rp)
+    flow_model = kdf.obs(R.run_driver("flow", "\n".join(os_m + fl_m) + "\n")) if (os_m or fl_m) else []
+    flow_impl = [o for w, o in os_want] + [o.split(None, 1)[1].replace(" C16:empty-message", "").replace(" C16:stale-message", "") for w, o in fl_want]
+    flow_mism = kdf.diff_streams(flow_impl, flow_model)
+    if flow_mism is not None and not (fail or api_fail or os_fail or fl_fail):
+        what = (os_want + [(l, o) for l, o in fl_want])[flow_mism][0] if flow_mism < len(flow_impl) else "(stream length)"
+        R.violation("error-message discipline: implementation and model disagree on '%s': implementation '%s', model '%s'" % (
+                        what[:160], flow_impl[flow_mism][:200] if flow_mism < len(flow_impl) else None,
+                        flow_model[flow_mism][:200] if flow_mism < len(flow_model) else None),
+                    dict(stream="flow", model_line=(os_m + fl_m)[flow_mism] if flow_mism < len(os_m + fl_m) else None, call=what,
+                         impl=flow_impl[flow_mism] if flow_mism < len(flow_impl) else None,
+                         model=flow_model[flow_mism] if flow_mism < len(flow_model) else None, broken_theorems=proof["broken"]),
+                    found_input=False)
     mism = kdf.diff_streams(impl, model)
     def ctx(i):
         j = i
@@ -338,6 +529,18 @@ def run(R):
                evaluations=len(lines), distinct_nontrivial=len({(m[1], len(m[2]) if m[1] == "add" else 0, m[3] if m[1] == "add" else 0, s) for m in meta for s in [seqs[m[0]][0]]}),
                rule="err_add sequences at the three real inline sizes: every message length 0..2*bufsz+3 as first message and a grid of second messages, "
                     "each with realloc succeeding and failing; random chains of up to 12 prepends/clears; non-trivial = distinct (bufsz, op, length, alloc outcome)",
-               traces_validated_against_impl=len(impl), api_monitor_observations=api_n, correspondence_first_diff=mism, case_kinds=kinds,
+               traces_validated_against_impl=len(impl) + len(flow_impl), api_monitor_observations=api_n, correspondence_first_diff=mism, case_kinds=kinds,
+               os_setup_family=os_stats, flow_family=fl_stats, flow_correspondence_first_diff=flow_mism,
+               flow_rule="addrxlat_sys_os_init + 3 conversions on generated images of x86_64 (Linux, Xen), ia32, riscv64, aarch64, arm, with get_page "
+                         "failing with each of nodata/notpresent/nomem/invalid/notimpl/custom(CORRUPT)/custom(EOF) at the pages the set-up reads and every "
+                         "symbol look-up refused in turn; root page table at a kernel virtual address the read callback advertises (direct_read_ok) on arm "
+                         "(option / swapper_pg_dir x _stext x phys_base x caps), aarch64, riscv64; register reads/writes with the PRSTATUS / XEN_PRSTATUS "
+                         "blob present, cleared, too short, restored; Xen crash note pointing to a readable / absent / truncated string, incl. n-th allocation failing",
                samples=[dict(input=ctx(i)) for i in (1, len(lines) // 2)])
-    return "proof", cov, ["the formatted message contains no NUL", "status/message monitors of the other streams are attributed to C16 there"]
+    return "proof", cov, ["the formatted message contains no NUL", "status/message monitors of the other streams are attributed to C16 there",
+                          "message discipline (Kdf.Model.ErrFlow): modelled and tied by stream `flow` for map_linux_arm, get_linux_pgtroot + map_linux_aarch64/"
+                          "riscv64, direct_read_ok, update_xen_extra_ver, get_attr_blob/derived attribute access; outcomes of callbacks, page reads and "
+                          "allocations are parameters (status + the message they leave), assumed to obey the property themselves (Part.wf)",
+                          "monitor-only (implementation-only, no model twin): x86_64/ia32/ppc64/s390x OS set-up, conversions after the set-up, the "
+                          "one-story rule on numbered callback failures (harness/s_os.c C16 mode), allocation-failure runs of the flow family, "
+                          "the API scenarios of harness/s_fmt.c and s_hist.c"]
